@@ -196,3 +196,199 @@ def signature(path, qualname):
     if a.kwarg:
         names.append('**' + a.kwarg.arg)
     return [n for n in names if n not in ('self', 'cls')]
+
+
+# ----------------------------------------------------------------------------------------------------------------------
+# module-level SETTINGS: scalars (and random generators) that functions read without being handed them.
+# A setting read by a memoised function is part of the call (Model/Memo.v, section SettingMemo): a memo keyed on the
+# arguments only answers the call made after `dadi.<Module>.<setting> = x` with the value stored under the old setting.
+
+RNG_CALLS = {'default_rng', 'RandomState', 'Random', 'Generator', 'SystemRandom'}
+
+
+def _scalar_literal(v):
+    """(True, python value) for a literal bool / int / float / str / None (also with a sign), else (False, None)"""
+    if isinstance(v, ast.Constant) and isinstance(v.value, (bool, int, float, str, type(None))):
+        return True, v.value
+    if isinstance(v, ast.UnaryOp) and isinstance(v.op, (ast.USub, ast.UAdd)) and isinstance(v.operand, ast.Constant) \
+            and isinstance(v.operand.value, (int, float)) and not isinstance(v.operand.value, bool):
+        return True, (-v.operand.value if isinstance(v.op, ast.USub) else v.operand.value)
+    return False, None
+
+
+def _module_stmts(body):
+    for n in body:
+        if isinstance(n, (ast.If, ast.Try, ast.With, ast.For, ast.While)):
+            for fld in ('body', 'orelse', 'finalbody'):
+                for m in _module_stmts(getattr(n, fld, []) or []):
+                    yield m
+            for h in getattr(n, 'handlers', []) or []:
+                for m in _module_stmts(h.body):
+                    yield m
+        else:
+            yield n
+
+
+def _module_level(tree):
+    """(scalars {name: [values in order of assignment]}, rngs [names], dicts [names], funcs {name: node}) of a module"""
+    scalars, rngs, dicts, funcs = {}, [], [], {}
+    for n in _module_stmts(tree.body):
+        if isinstance(n, (ast.FunctionDef, ast.AsyncFunctionDef)):
+            funcs[n.name] = n
+        for t in _targets(n):
+            if not isinstance(t, ast.Name) or (t.id.startswith('__') and t.id.endswith('__')):
+                continue
+            ok, val = _scalar_literal(n.value)
+            if ok:
+                scalars.setdefault(t.id, []).append(val)
+            elif isinstance(n.value, ast.Call) and _decorator_name(n.value) in RNG_CALLS:
+                rngs.append(t.id)
+            elif _is_dict_value(n.value):
+                dicts.append(t.id)
+    return scalars, rngs, dicts, funcs
+
+
+def _local_bindings(fn):
+    """names bound inside fn itself (parameters, assignments, loop / with / comprehension-free targets) that are not declared global"""
+    a = fn.args
+    bound = set(x.arg for x in a.posonlyargs + a.args + a.kwonlyargs)
+    if a.vararg:
+        bound.add(a.vararg.arg)
+    if a.kwarg:
+        bound.add(a.kwarg.arg)
+    glob = set()
+    if isinstance(fn, ast.Lambda):
+        return bound, glob
+    for n in _walk_no_nested(fn):
+        if isinstance(n, ast.Global):
+            glob.update(n.names)
+        elif isinstance(n, ast.Name) and isinstance(n.ctx, (ast.Store, ast.Del)):
+            bound.add(n.id)
+        elif isinstance(n, (ast.Import, ast.ImportFrom)):
+            for al in n.names:
+                bound.add((al.asname or al.name).split('.')[0])
+    return bound - glob, glob
+
+
+def _function_reads(tree, names):
+    """{qualified function name: (set of `names` the function itself loads as a free (module-level) name, set of other free names it loads)}
+    for every def / lambda-free function, all nesting levels; a nested function inherits the shadowing of the enclosing ones"""
+    out = {}
+    def rec(node, qual, shadow):
+        for c in ast.iter_child_nodes(node):
+            if isinstance(c, (ast.FunctionDef, ast.AsyncFunctionDef)):
+                q = (qual + '.' if qual else '') + c.name
+                bound, glob = _local_bindings(c)
+                sh = (shadow | bound) - glob
+                reads, free = set(), set()
+                for n in ast.walk(c):
+                    if isinstance(n, ast.Name) and isinstance(n.ctx, ast.Load) and n.id not in sh:
+                        (reads if n.id in names else free).add(n.id)
+                # (ast.walk includes nested defs: a read by a nested def / lambda is attributed to the enclosing function too - conservative)
+                reads |= (glob & set(names))
+                out[q] = (reads, free)
+                rec(c, q, sh)
+            elif isinstance(c, ast.ClassDef):
+                rec(c, (qual + '.' if qual else '') + c.name, shadow)
+            else:
+                rec(c, qual, shadow)
+    rec(tree, '', set())
+    return out
+
+
+def _modname(rel):
+    """'Integration.py' -> 'Integration'; 'Demes/Inference.py' -> 'Demes.Inference'; 'Demes/__init__.py' -> 'Demes'"""
+    p = rel[:-3].split(os.sep)
+    if p[-1] == '__init__':
+        p = p[:-1]
+    return '.'.join(p)
+
+
+def settings_state(root):
+    """fail-closed enumeration of the module-level settings of dadi/**/*.py.
+
+    returns (items, defaults, memo_reads):
+      items      {relative path: ['setting:<name>' | 'rng:<name>', ...]}   module-level names bound to a scalar literal that some
+                 function reads as a free name (or re-binds with `global`), or that ANY dadi file reads as `<Module>.<name>`; module-level
+                 random generators
+      defaults   {(relative path, name): last literal value assigned at module level}
+      memo_reads {relative path: ['<memoised function>:<setting>', ...]}   memoised functions (memoising decorator, or a function that stores into
+                 a module-level dictionary) that read a setting of their module, directly or through functions of the same file they refer to
+    """
+    trees = {}
+    for dp, dn, fn in os.walk(root):
+        dn[:] = sorted(d for d in dn if d not in ('__pycache__',))
+        for f in sorted(fn):
+            if f.endswith('.py'):
+                p = os.path.join(dp, f)
+                trees[os.path.relpath(p, root)] = _parse_quiet(p)
+    level = {rel: _module_level(t) for rel, t in trees.items()}
+    # attribute reads `<Module>.<name>` anywhere in the tree
+    attr_reads = set()
+    for rel, t in trees.items():
+        for n in ast.walk(t):
+            if isinstance(n, ast.Attribute) and isinstance(n.ctx, ast.Load):
+                base = n.value
+                bname = base.id if isinstance(base, ast.Name) else base.attr if isinstance(base, ast.Attribute) else None
+                if bname:
+                    attr_reads.add((bname, n.attr))
+    items, defaults, memo_reads = {}, {}, {}
+    for rel, t in sorted(trees.items()):
+        scalars, rngs, dicts, funcs = level[rel]
+        reads = _function_reads(t, set(scalars) | set(rngs))
+        mod_last = _modname(rel).split('.')[-1] if _modname(rel) else 'dadi'
+        used = set()
+        for q, (r, _) in reads.items():
+            used |= r
+        for name in scalars:
+            if (mod_last, name) in attr_reads:
+                used.add(name)
+        found = ['setting:' + n for n in sorted(scalars) if n in used] + ['rng:' + n for n in sorted(set(rngs))]
+        if found:
+            items[rel] = found
+        for n in scalars:
+            if n in used:
+                defaults[(rel, n)] = scalars[n][-1]
+        # memoised functions and the settings they (transitively, inside this file) read
+        setting_names = set(n for n in scalars if n in used) | set(rngs)
+        if not setting_names:
+            continue
+        free_of = {q: fr for q, (_, fr) in reads.items()}
+        direct = {q: r for q, (r, _) in reads.items()}
+        def closure(q0):
+            seen, todo, got = set(), [q0], set()
+            while todo:
+                q = todo.pop()
+                if q in seen:
+                    continue
+                seen.add(q)
+                got |= direct.get(q, set())
+                for fr in free_of.get(q, ()):
+                    if fr in funcs and fr not in seen:      # a module-level function of this file referred to by name
+                        todo.append(fr)
+            return got
+        memoised = set()
+        def rec(node, qual):
+            for c in ast.iter_child_nodes(node):
+                if isinstance(c, (ast.FunctionDef, ast.AsyncFunctionDef)):
+                    q = (qual + '.' if qual else '') + c.name
+                    for d in c.decorator_list:
+                        dn_ = _decorator_name(d)
+                        if dn_ in MEMO_DECORATORS or 'cache' in dn_.lower() or 'memo' in dn_.lower():
+                            memoised.add(q)
+                    for n in _walk_no_nested(c):
+                        if isinstance(n, ast.Subscript) and isinstance(n.ctx, ast.Store) and isinstance(n.value, ast.Name) and n.value.id in dicts:
+                            memoised.add(q)
+                        if isinstance(n, ast.Call) and isinstance(n.func, ast.Attribute) and isinstance(n.func.value, ast.Name) and n.func.value.id in dicts \
+                                and n.func.attr in ('setdefault', 'update'):
+                            memoised.add(q)
+                    rec(c, q)
+                elif isinstance(c, ast.ClassDef):
+                    rec(c, (qual + '.' if qual else '') + c.name)
+                else:
+                    rec(c, qual)
+        rec(t, '')
+        mr = sorted('%s:%s' % (q, s) for q in memoised for s in closure(q))
+        if mr:
+            memo_reads[rel] = mr
+    return items, defaults, memo_reads
